@@ -212,6 +212,12 @@ func (m *Machine) callVx(caller *frame, fn *ssa.Function, args []value) (value, 
 		return nil, true
 	case "vxNative":
 		return st.ff, true
+	case "vxOr":
+		return st.Or(args[0].(*Term), args[1].(*Term)), true
+	case "vxAnd":
+		return st.And(args[0].(*Term), args[1].(*Term)), true
+	case "vxImplies":
+		return st.Or(st.Not(args[0].(*Term)), args[1].(*Term)), true
 	case "vxIte":
 		c := args[0].(*Term)
 		return st.Ite(c, args[1].(*Term), args[2].(*Term)), true
